@@ -660,7 +660,10 @@ func (s *Server) Invoke(responseWriter http.ResponseWriter, invoke *interop.Invo
 
 		reserveResp, err := s.Reserve("", "", "")
 		if err != nil {
+			// e.g. ErrAlreadyReserved: another invoke is in flight; there is no reservation to work with
 			log.Infof("ReserveFailed: %s", err)
+			releaseErrChan <- err
+			return
 		}
 
 		invoke.DeadlineNs = fmt.Sprintf("%d", metering.Monotime()+reserveResp.Token.FunctionTimeout.Nanoseconds())
